@@ -107,6 +107,14 @@ def run_chop(L, kw, length_ratio=1.0, via_grading=True):
         warnings.simplefilter("ignore")
         try:
             chop = Chop(length_ratio=length_ratio, **kw)
+            # half of the chops (chosen by the input, so that replays agree) have been calculated before, on ANOTHER length:
+            # what calculate(L) returns is a function of the chop's parameters and of L
+            if int(hashlib.sha1(json.dumps([L, kw, length_ratio], sort_keys=True, default=str).encode()).hexdigest()[:4], 16) % 2 == 1:
+                for other in (2.75 * L * length_ratio, 0.4 * L * length_ratio):
+                    try:
+                        chop.calculate(other)
+                    except Exception:  # noqa: BLE001
+                        pass
             if via_grading:
                 g = Grading(L)
                 g.add_chop(chop)
@@ -746,6 +754,9 @@ def oracle_chop(L, kw, ob, tau=1e-7):
                 return ("total-not-reproduced", "total expansion %r given, %r returned" % (kw["total_expansion"], E))
             if r > 0 and r != 1:
                 x = math.log(E) / math.log(r)
+                if x <= -1 - 1e-9:
+                    return ("unrealisable-accepted", "total expansion %r and cell-to-cell ratio %r lie on opposite sides of 1 "
+                            "(log E / log r = %.4g): no cell count realises both, yet (%d, %r) is returned" % (E, r, x, n, E))
                 if x >= 0:
                     lo, hi = (n - 1) * math.log(r), n * math.log(r)
                     le = math.log(E)
@@ -1126,6 +1137,21 @@ class C03(Prop):
                     vals[t[0]] = out[1]
                 if not reproduced:
                     goals.add("False", "fail", dict(info0, goal="Chop.calculate raised %s but no relation of its plan does" % ob.get("err")))
+
+        # (2b) contradictory requests (oracle only): total expansion and cell-to-cell ratio on opposite sides of 1, more than
+        # one cell apart - no count realises both, the chop must be refused, directly and through a Grading
+        for i in range(ctx.n(24, 400)):
+            c = rng.choice([1.05, 1.1, 1.15, 1.3, 0.9, 0.8])
+            kw = {"total_expansion": c ** (-rng.uniform(1.2, 9.0)), "c2c_expansion": c}
+            L = draw_L(rng)
+            ob = run_chop(L, kw, rng.choice([1.0, 0.5]), via_grading=(i % 2 == 0))
+            res.evaluations += 1
+            res.count("contradictory total/c2c")
+            res.distinct.add(json.dumps(["contra", L, sorted(kw.items())]))
+            if ob["status"] == "ok":
+                bad = oracle_chop(L, kw, ob, tau) or ("unrealisable-accepted", "accepted")
+                res.oracle_failures.append(dict(kind="chop", length=L, chop=kw, code=bad[0], why=bad[1], count=ob["n"],
+                                                total_expansion=float(ob["E"]) if is_real(ob["E"]) else repr(ob["E"])))
 
         # (3) inversion of chops
         for pair in TEN_PAIRS:
